@@ -191,7 +191,15 @@ fn run_op(line: &str) -> R {
     match parts[0] {
         "mn.parse" => {
             let phrase = utf8(arg(1)?)?;
-            let m = Mnemonic::from_phrase(&phrase).map_err(e)?;
+            // the other entry point (`FromStr`, what clap and `str::parse` use) must treat the text exactly as `from_phrase` does
+            let via_from_str = phrase.parse::<Mnemonic>();
+            let direct = Mnemonic::from_phrase(&phrase);
+            match (&via_from_str, &direct) {
+                (Ok(a), Ok(b)) if a.to_phrase() == b.to_phrase() => {}
+                (Err(_), Err(_)) => {}
+                _ => return Ok(vec!["impure:from_str-and-from_phrase-disagree-on-this-text".into()]),
+            }
+            let m = direct.map_err(e)?;
             let printed = m.to_phrase();
             // a copy of the value is the same value: it prints the same and has the same length (and printing twice too)
             let copy = m.clone();
